@@ -417,6 +417,10 @@ class Gen(object):
             self.emit(1, "if False: yield")
         # (a local bound to None: a stray id(None) lookup in the varname fallback would pick it up)
         extra = ["    LFN = FN", "    pending = None"]
+        if self.rng.random() < 0.3:
+            # a comprehension whose loop variable is captured by a nested function: inlined on 3.12+ (PEP 709), where
+            # that variable - not an argument - is then both a fast local and a cell of *this* function
+            extra.append("    _lc = [(lambda: _cq) for _cq in (1, 2)]")
         if self.globals_decl:
             extra.append("    global " + ", ".join(self.globals_decl))
         if self.cellvars:
